@@ -31,6 +31,8 @@ func runCaseGuarded(c *Case) string {
 	}
 }
 
+func init() { registerKind("ops", genOps, "op", runOpCase) }
+
 func runOpCase(c *Case) string {
 	spec := findOp(c.get("op", "?"))
 	if spec == nil {
